@@ -557,8 +557,9 @@ def gen_system_bundle(rng, depth=1, size=6, n_templates=2, **kw):
     """a system of component instances (and, for depth>1, sub-systems), signals wired by port length"""
     b = Bundle()
     lib = []   # (import path, kind, ast, in/out port lengths+stars)
-    subdirs = ["", "", "lib/", "parts/"]
+    subdirs = ["", "", "lib/", "parts/"] if rng.random() < 0.7 else ["", "lib/", "parts/", "parts/deep/", "lib/x/"]
     used_names = set()
+    needed = set()
 
     def new_comp_template(i):
         g = CompGen(rng, name="T%d" % i, size=size, nports=(1, 2), **kw)
@@ -602,6 +603,9 @@ def gen_system_bundle(rng, depth=1, size=6, n_templates=2, **kw):
                 ipath = t["path"][len(d):]
             elif "/" in t["path"] and rng.random() < 0.35:
                 ipath = base          # lives elsewhere: only the include path can find it
+            # which include directory this spelling really needs (the importer's own directory d is searched first)
+            if os.path.normpath(os.path.join(d, ipath)) != os.path.normpath(t["path"]):
+                needed.add(os.path.normpath(t["path"][:len(t["path"]) - len(ipath)] or "."))
             if tname in imports and imports[tname] != ipath:
                 continue
             if tname not in imports:
@@ -658,6 +662,10 @@ def gen_system_bundle(rng, depth=1, size=6, n_templates=2, **kw):
     b.includes = [d if d else "." for d in dirs]
     if "." not in b.includes:
         b.includes.insert(rng.randint(0, len(b.includes)), ".")
+    if rng.random() < 0.5:
+        # only the directories some import spelling cannot do without: everything else must be found relative to the
+        # importing file's own directory
+        b.includes = [x for x in b.includes if x in needed]
     # model view: instantiate the tree
     def inst(info, instpath):
         key = os.path.normpath(info["path"] + (".sys" if info["kind"] == "sys" else ".comp")) + "@" + instpath
